@@ -970,7 +970,8 @@ func (h *H) monitor(op string, before, after snap, paidWho int, paid int64, spec
 			}
 			if ap.status == "failed" {
 				for i := range h.accs {
-					if after.bal[i].GT(before.bal[i]) && !strings.HasPrefix(op, "mint ") && perWho[i].IsNil() {
+					// (a cancellation in the same block may pay its charges to an ACCOUNT — params.ProposalCancelDest — that is no depositor)
+					if after.bal[i].GT(before.bal[i]) && !strings.HasPrefix(op, "mint ") && perWho[i].IsNil() && len(h.txCancelled) == 0 {
 						out.Violate(fmt.Sprintf("failed proposal: account %d was credited %s by one of its messages", i, after.bal[i].Sub(before.bal[i])))
 					}
 				}
@@ -1333,6 +1334,19 @@ func (h *H) msgSetCustom(url string, remove bool, r *big.Int, period int64, q *b
 		act = fmt.Sprintf("setc,%s,%s,%d,%s", url, r, period, q)
 	}
 	return pmsg{url: sdk.MsgTypeURL(m), wf: wf, ok: true, act: act, real: m, creditTo: -1}
+}
+
+// msgGovDeposit: MsgDeposit whose depositor is the gov module account (its only signer is then the gov account, so the SDK's
+// SubmitProposal accepts it as a proposal message) — round 4, fix 45d0bc2
+func (h *H) msgGovDeposit(pid uint64, amt int64) pmsg {
+	m := &v1.MsgDeposit{ProposalId: pid, Depositor: h.gov, Amount: coins(amt)}
+	return pmsg{url: sdk.MsgTypeURL(m), wf: true, ok: true, act: fmt.Sprintf("govdep,%d,%d", pid, amt), real: m, creditTo: -1}
+}
+
+// msgGovSubmit: MsgSubmitProposal whose proposer is the gov module account (no messages of its own, metadata only)
+func (h *H) msgGovSubmit(initial int64, expedited bool) pmsg {
+	m := &v1.MsgSubmitProposal{InitialDeposit: coins(initial), Proposer: h.gov, Metadata: "m", Title: "t", Summary: "s", Expedited: expedited}
+	return pmsg{url: sdk.MsgTypeURL(m), wf: true, ok: true, act: fmt.Sprintf("govsub,%d,%s", initial, b01(expedited)), real: m, creditTo: -1}
 }
 
 func (h *H) msgToggle(exists bool) pmsg {
@@ -1769,7 +1783,25 @@ func (h *H) randomMsgs() []pmsg {
 		n = 0
 	}
 	var ms []pmsg
-	switch r.Intn(7) {
+	switch r.Intn(8) {
+	case 7: // a message that deposits FROM the gov module account: MsgDeposit on an open proposal, or MsgSubmitProposal
+		sn := h.observe()
+		for i := 0; i < n; i++ {
+			if r.Intn(3) == 0 {
+				ms = append(ms, h.msgGovSubmit(hx.Pick(r, []int64{0, 1, 5, 1000}), r.Intn(4) == 0))
+				continue
+			}
+			pid := uint64(1 + r.Intn(4))
+			if ids := h.openIDs(sn, ""); len(ids) > 0 && r.Intn(4) != 0 {
+				pid = hx.Pick(r, ids)
+			}
+			ms = append(ms, h.msgGovDeposit(pid, hx.Pick(r, []int64{0, 1, 5, 100, 1000})))
+		}
+		for i := range ms { // one type
+			if ms[i].url != ms[0].url {
+				ms[i] = ms[0]
+			}
+		}
 	case 6: // legacy content: the message type is MsgExecLegacyContent, whatever it wraps
 		for i := 0; i < n; i++ {
 			ms = append(ms, h.msgLegacy(r.Intn(12) != 0))
@@ -2068,6 +2100,12 @@ func TestC15(t *testing.T) {
 		h := newH(t, out, rng, 3, 4)
 		h.start(facts)
 		h.scenarioSameBlock()
+		h.genesisRoundTrip()
+	}
+	{
+		h := newH(t, out, rng, 3, 4)
+		h.start(facts)
+		h.scenarioGovDeposit()
 		h.genesisRoundTrip()
 	}
 	nSeq := hx.N(240, 1500)
